@@ -270,8 +270,8 @@ class AstBuilder:
             line_tokens = node.get_tokens("Other")
             tokens = list(line_tokens)
 
-            # Trim trailing empty lines
-            while tokens and not tokens[-1].matched_text:
+            # Trim trailing blank (empty or whitespace-only) lines
+            while tokens and not tokens[-1].matched_text.strip():
                 tokens.pop()
 
             return "\n".join(token.matched_text for token in tokens)
